@@ -9,13 +9,14 @@ import numpy as np
 
 from .. import models
 from ..core import RunResult, adigest, mix
+from ..driver import pristine_library_state
 from .hist_common import SAME, TAU, call_value, quiet
 
 NAME = "B8"
 PROPERTY = "C08"
 RUNS = {"quick": 200, "thorough": 5000}
 RUN_WALL_CAP = 180.0
-REQUIRED_PROBES = {"quick": ["rectangular", "degenerate_row", "reps_gt_1", "quantum_bracketed", "npa1_compared", "method_repeated", "tol_given", "quantum_gap"], "thorough": ["rectangular", "degenerate_row", "reps_gt_1", "reps_3", "quantum_bracketed", "npa1_compared", "method_repeated", "tol_given", "quantum_gap"]}
+REQUIRED_PROBES = {"quick": ["rectangular", "degenerate_row", "reps_gt_1", "quantum_bracketed", "npa1_compared", "method_repeated", "tol_given", "quantum_gap", "two_objects_same_shape"], "thorough": ["rectangular", "degenerate_row", "reps_gt_1", "reps_3", "quantum_bracketed", "npa1_compared", "method_repeated", "tol_given", "quantum_gap"]}
 COMPONENTS = {"real": ["toqito.nonlocal_games.XORGame (constructor, quantum_value, classical_value, nonsignaling_value, to_nonlocal_game)", "NonlocalGame.classical_value / nonsignaling_value / commuting_measurement_value_upper_bound(1)", "toqito.helper.npa_constraints", "cvxpy + SCS/Clarabel"], "stub": []}
 RULE = ("one run = one XORGame object (1..5 x 1..5 questions, rectangular, zero rows/columns, uniform / skewed distributions, reps 1..3 where the product game stays small, tol given or defaulted) and 3..6 "
         "value-method calls in seeded order with repetition; reference = rigorous bracket [bias of explicit unit vectors, dual-feasible certificate] from own SDPs, +/-1 enumeration, LP; "
@@ -37,8 +38,10 @@ def preload():
     import scipy.optimize  # noqa: F401
 
 
-def draw_game(st):
+def draw_game(st, like=None):
     q0, q1 = st.int_range(1, 5), st.int_range(1, 5)
+    if like is not None:
+        q0, q1 = like["shape"]
     rng = st.nprng()
     qk = st.weighted([("uniform", 3), ("dirichlet", 4), ("zero_row", 3), ("sparse", 2)])
     if qk == "uniform":
@@ -89,6 +92,11 @@ def run(cs, tier, run_index):
         res.violate("C08.val.same_as_game", why="constructor raised on a valid XOR game", exc=type(e).__name__, msg=str(e)[:200], **meta)
         return res
     shadow = [prob.copy(), pred.copy()]
+    interloper = None
+    if cfg.draw(3) == 2 or run_index % 8 == 7:
+        p2, f2, _, _ = draw_game(cs.s("game:2"), like=meta)
+        interloper = X.XORGame(p2, f2, reps)
+        res.probe("two_objects_same_shape")
 
     # reference models (single-shot)
     gp, gv = models.xor_to_general(prob, pred)
@@ -126,6 +134,8 @@ def run(cs, tier, run_index):
         names.append(nm)
     pristine, vals = {}, {}
     for k, nm in enumerate(names):
+        if interloper is not None and ops_s.draw(2):
+            call_value(op_fn(interloper, nm), res, nm + "(other object)")
         out = call_value(op_fn(game, nm), res, nm)
         res.log.add("op", k, nm, out[1] if out[0] == "ok" else out[:2])
         res.checks_sim += 1
@@ -139,8 +149,9 @@ def run(cs, tier, run_index):
             pristine[nm] = v
         else:
             if nm not in pristine:
-                g2, _ = build()
-                o2 = call_value(op_fn(g2, nm), res, nm + "(pristine)")
+                with pristine_library_state():
+                    g2, _ = build()
+                    o2 = call_value(op_fn(g2, nm), res, nm + "(pristine)")
                 pristine[nm] = o2[1] if o2[0] == "ok" else None
             if pristine[nm] is not None:
                 res.checks_sim += 1
